@@ -85,7 +85,8 @@ class DictWriter:
                 else:
                     tag = getattr(odml_document, attr)
 
-                    if tag:
+                    # Numbers are set attributes also when they are 0 (version).
+                    if tag or isinstance(tag, (bool, int, float)):
                         # Always use the arguments key attribute name when saving
                         parsed_doc[i] = tag
 
